@@ -148,6 +148,8 @@ pub struct Th {
     pub call_ops: usize,
     pub retrying: bool,
     pub solo_mark: Option<usize>,
+    /// ops executed since the last observable change by any thread
+    pub since: usize,
 }
 
 pub struct St {
@@ -187,6 +189,8 @@ pub struct St {
     pub phase: usize,
     /// no API/ledger logging (long churn runs)
     pub mute: bool,
+    /// run generation; threads of an aborted generation stay parked for ever (they are never unwound)
+    pub gen: u64,
 }
 
 pub struct Rt {
@@ -234,6 +238,7 @@ impl St {
             transparent_mm: false,
             phase: 0,
             mute: false,
+            gen: 0,
         }
     }
 
@@ -302,6 +307,7 @@ impl Rt {
         max_steps: usize,
     ) {
         let mut st = self.lock();
+        st.gen += 1;
         st.source = Some(source);
         st.steps.clear();
         st.step_base = step_base;
@@ -324,6 +330,7 @@ impl Rt {
                 call_ops: 0,
                 retrying: false,
                 solo_mark: None,
+                since: 0,
             })
             .collect();
         st.held.clear();
@@ -352,10 +359,17 @@ impl Rt {
         }
         let enabled: Vec<usize> = (0..st.th.len()).filter(|&t| st.enabled(t)).collect();
         let mut bad = None;
+        let mut force: Option<usize> = None;
         if enabled.is_empty() {
             bad = Some(Outcome::Deadlock);
         } else if st.since_progress > st.livelock {
-            bad = Some(Outcome::Livelock);
+            // only a livelock if every enabled thread had its turn and merely spun; otherwise the schedule
+            // source starved somebody: give that thread the baton instead
+            if let Some(&starved) = enabled.iter().find(|&&t| st.th[t].since < SPIN_FREE) {
+                force = Some(starved);
+            } else {
+                bad = Some(Outcome::Livelock);
+            }
         } else if st.step >= st.max_steps {
             bad = Some(Outcome::StepLimit);
         }
@@ -445,6 +459,9 @@ impl Rt {
         };
         if !enabled.contains(&c) {
             c = default_pick(&view);
+        }
+        if let Some(f) = force {
+            c = f;
         }
         if let Some(s) = src.as_ref() {
             if let Some((t, bound)) = s.solo() {
@@ -543,19 +560,17 @@ impl Rt {
         if st.granted == Some(tid) {
             st.granted = None;
         }
+        let my_gen = st.gen;
         if st.started {
             self.schedule_next(&mut st, Some(tid));
         } else {
             self.ctl.notify_all();
         }
         loop {
-            if st.abort {
-                drop(st);
-                std::panic::resume_unwind(Box::new(AbortRun));
-            }
-            if st.granted == Some(tid) && st.th[tid].status == Status::Running {
+            if st.gen == my_gen && !st.abort && st.granted == Some(tid) && st.th[tid].status == Status::Running {
                 break;
             }
+            // a thread of an aborted run (stuck, or an earlier generation) is never resumed
             st = match self.cvs[tid].wait(st) {
                 Ok(g) => g,
                 Err(p) => p.into_inner(),
@@ -606,8 +621,12 @@ impl Rt {
         }
         if ro {
             st.since_progress += 1;
+            st.th[tid].since += 1;
         } else {
             st.since_progress = 0;
+            for th in st.th.iter_mut() {
+                th.since = 0;
+            }
         }
         match kind {
             K::Shim(OpKind::MutexLock) => {
@@ -689,13 +708,15 @@ impl Rt {
         st.task_notified.insert(task, false);
     }
 
-    /// Makes every parked thread unwind and every later op pass through
+    /// The parked threads of a stuck run are left where they are for the rest of the process
     pub fn abort_run(&self) {
         let mut st = self.lock();
         st.abort = true;
-        for c in &self.cvs {
-            c.notify_all();
-        }
+    }
+
+    pub fn finished_threads(&self) -> Vec<bool> {
+        let st = self.lock();
+        st.th.iter().map(|t| t.status == Status::Finished).collect()
     }
 }
 
